@@ -397,15 +397,42 @@ def check_add(ctx, c):
     def viol(clause, what, detail=None):
         ctx.violation("C06/%s/%s" % (name, clause), what, c, detail, sig=_sig(c))
 
+    from vv.mon.snapshot import diff, snap
+
+    def state(m):
+        return snap((dict(m.column_label_dictionary_), dict(m.column_index_dictionary_), m._train_matrix.toarray(), dict(m._token_dictionary_)))
+
     try:
         a = V.NgramVectorizer().fit(A)
         b = V.NgramVectorizer().fit(B)
         ab = V.NgramVectorizer().fit(A + B)
+        sa, sb = state(a), state(b)
         s = a + b
     except Exception as e:
         viol("raises/%s" % type(e).__name__, "fit / + raised %s: %s" % (type(e).__name__, str(e)[:160]))
         return
     ctx.count("add_pairs")
+    for nm, m, s0 in (("left", a, sa), ("right", b, sb)):
+        d = diff(s0, state(m))
+        if d:
+            viol("operand-modified/%s" % nm, "'+' changed its %s operand: %s" % (nm, d[:160]))
+            return
+    # the same fitted model as operand of a second merge: a + x must again behave like a fit on A ++ X
+    try:
+        x = V.NgramVectorizer().fit(X if any(X) else A)
+        s2 = a + x
+        ax = V.NgramVectorizer().fit(A + (X if any(X) else A))
+        l2, lax = dict(s2.column_label_dictionary_), dict(ax.column_label_dictionary_)
+        if set(l2) != set(lax):
+            viol("second-merge/column-set", "a + x after a + b: columns differ from a fit on the concatenation", {"sum": sorted(l2), "concat": sorted(lax)})
+            return
+        perm2 = [l2[t] for t in sorted(lax, key=lambda t: lax[t])]
+        if s2._train_matrix.shape != ax._train_matrix.shape or not np.array_equal(s2._train_matrix.toarray()[:, perm2], ax._train_matrix.toarray()):
+            viol("second-merge/train-matrix", "a + x after a + b: training matrix differs from a fit on the concatenation")
+            return
+    except Exception as e:
+        viol("second-merge/raises-%s" % type(e).__name__, "reusing a fitted model in a second '+' raised %s: %s" % (type(e).__name__, str(e)[:160]))
+        return
     ls, lab = dict(s.column_label_dictionary_), dict(ab.column_label_dictionary_)
     if set(ls) != set(lab):
         viol("column-set", "(a+b) columns differ from those of a model fitted on the concatenated corpora", {"sum": sorted(ls), "concat": sorted(lab)})
